@@ -35,8 +35,13 @@ def reorder (g : Grammar) (order : List String) : Grammar :=
 
 /-- the premises of `converse_through_grammar` / `merged_tables_equivalent` on this pair (the search
 procedures are untrusted, the five checks are the theorem's decidable premises) -/
-def converseCheck (g : Grammar) (A B : Table) (simOK : Bool) : String :=
+def converseCheck (g0 : Grammar) (A0 B0 : Table) (simOK : Bool) : String :=
+  -- the token-level reading of the grammar, and both tables with non-terminals under their rules' names
+  let g := tokenView g0
+  let A := renameNT A0 (findRen g A0)
+  let B := renameNT B0 (findRen g B0)
   if g.rules.isEmpty then "na:no-grammar" else
+  if !(findSim A B).isSome then "na:no-forward-simulation" else
   if !simOK then "na:no-forward-simulation" else
   if A.stateCount > 100 then "na:big" else
   if !sameTerminals A B then "false:terminals" else
